@@ -185,8 +185,63 @@ func (e *symEnv) clone() *symEnv {
 	return n
 }
 
-// symName gives a stable symbol for a selector/index/call expression.
-func (e *symEnv) symName(x ast.Expr) string { return canon(x) }
+// symName gives a stable symbol for a selector/index/call expression: local variables that merely name
+// another opaque value (intPoint := intgeom.FromGeomPoint(point)) are replaced by that value, so renaming a
+// local does not change the symbol.
+func (e *symEnv) symName(x ast.Expr) string {
+	var sb strings.Builder
+	var w func(x ast.Expr)
+	w = func(x ast.Expr) {
+		switch v := ast.Unparen(x).(type) {
+		case *ast.Ident:
+			if o := core.ObjOf(e.info, v); o != nil {
+				if p, ok := e.vars[o]; ok && len(p) == 1 {
+					for k, c := range p {
+						m := parseMono(k)
+						if c.Cmp(big.NewRat(1, 1)) == 0 && len(m) == 1 {
+							for s, ex := range m {
+								if ex == 1 {
+									sb.WriteString(s)
+									return
+								}
+							}
+						}
+					}
+				}
+			}
+			sb.WriteString(v.Name)
+		case *ast.SelectorExpr:
+			w(v.X)
+			sb.WriteString("." + v.Sel.Name)
+		case *ast.CallExpr:
+			w(v.Fun)
+			sb.WriteString("(")
+			for i, a := range v.Args {
+				if i > 0 {
+					sb.WriteString(",")
+				}
+				w(a)
+			}
+			sb.WriteString(")")
+		case *ast.IndexExpr:
+			w(v.X)
+			sb.WriteString("[")
+			w(v.Index)
+			sb.WriteString("]")
+		case *ast.StarExpr:
+			w(v.X)
+		case *ast.UnaryExpr:
+			if v.Op != token.AND && v.Op != token.MUL {
+				sb.WriteString(v.Op.String())
+			}
+			w(v.X)
+		default:
+			sb.WriteString(canon(x))
+		}
+	}
+	w(x)
+	return sb.String()
+}
 
 func (e *symEnv) eval(x ast.Expr) (lpoly, bool) {
 	x = ast.Unparen(x)
@@ -315,6 +370,21 @@ func (e *symEnv) run(stmts []ast.Stmt) {
 					e.assign(st.Lhs[i], st.Rhs[i])
 				}
 			}
+		case *ast.IfStmt:
+			// flow-insensitive: single-assignment locals defined under a guard keep their defining expression
+			if st.Init != nil {
+				e.run([]ast.Stmt{st.Init})
+			}
+			e.run(st.Body.List)
+			if st.Else != nil {
+				e.run([]ast.Stmt{st.Else})
+			}
+		case *ast.BlockStmt:
+			e.run(st.List)
+		case *ast.ForStmt:
+			e.run(st.Body.List)
+		case *ast.RangeStmt:
+			e.run(st.Body.List)
 		case *ast.DeclStmt:
 			if gd, ok := st.Decl.(*ast.GenDecl); ok {
 				for _, sp := range gd.Specs {
